@@ -814,7 +814,7 @@ def prim (d : Dialect) (name : String) (args : List (JV N)) (v : JV N) (p : PInf
      | _ => errS "Paths must be specified as an array")
   | "trunc", [] =>
     (match v with
-     | .num n => (NumOps.math "trunc" n).bind fun r => ok (.num r)
+     | .num n => (NumOps.math (if d.succinctly then "trunc_i64" else "trunc") n).bind fun r => ok (.num r)
      | v => if d.succinctly then errS "math function requires number" else subjErr v "number required")
   | "have_literal_numbers", [] => ok (.bool true)
   | "tostream_list", [] => ok (.arr v.tostream)
@@ -958,6 +958,7 @@ def succName (name : String) (arity : Nat) : String :=
   | "tostream", 0 => "tostream"
   | "last", 1 => "_last_s"
   | "nth", 2 => "_nth_s"
+  | "limit", 2 => "_limit_s"
   | "reverse", 0 => "_reverse_s"
   | "flatten", 0 => "_flatten_s"
   | "flatten", 1 => "_flatten1_s"
